@@ -247,7 +247,10 @@ def shared_objects():
     pt = oqupy.PtTempo(bath, 0.0, 0.31, params).get_process_tensor(progress_type="silent")
     ctrl = oqupy.Control(2)
     ctrl.add_single(1, np.kron(SX, SX.conj()))
-    return {"system": oqupy.System(0.5 * SX + 0.1 * SZ), "bath": bath, "params": params, "pt": pt, "ctrl": ctrl,
+    from oqupy import bath_dynamics
+    sysm = oqupy.System(0.5 * SX + 0.1 * SZ)
+    bdyn = bath_dynamics.TwoTimeBathCorrelations(sysm, bath, pt, initial_state=RHO.copy())
+    return {"system": sysm, "bath": bath, "params": params, "pt": pt, "ctrl": ctrl, "bdyn": bdyn,
             "rho": RHO.copy(), "psys": oqupy.ParameterizedSystem(lambda x, y: x * SX + y * SZ),
             "pars": np.array([[0.3, 0.1]] * 6)}
 
@@ -270,6 +273,12 @@ def use(kind, o):
         r = oqupy.state_gradient(system=o["psys"], initial_state=o["rho"], target_derivative=np.array([[0.2, 0.1], [0.1, 0.8]], dtype=complex),
                                  process_tensors=[o["pt"]], parameters=o["pars"], progress_type="silent")
         return np.array(r["gradient"])
+    if kind == "bathcorr-early":
+        return np.array([o["bdyn"].correlation(1.3, 0.1, time_2=0.2, progress_type="silent")])
+    if kind == "bathcorr-late":
+        return np.array([o["bdyn"].correlation(1.3, 0.2, time_2=0.3, progress_type="silent")])
+    if kind == "bathocc":
+        return np.array(o["bdyn"].occupation(1.3, progress_type="silent")[1])
     if kind == "tebd":
         chain = oqupy.SystemChain([2, 2])
         chain.add_site_hamiltonian(0, 0.3 * SX)
@@ -351,7 +360,7 @@ def run(ctx):
                 raise core.MachineryError(x["detail"])
             ctx.violation("C20:%s:%s" % (n, x["what"]), "api=%s layout=%s: %s" % (n, lay, x), {"layout": [n, lay]})
     # (C) reuse of shared objects
-    kinds = '{"tempo", "pttempo", "dynamics", "correlations", "gradient", "tebd"}'
+    kinds = '{"tempo", "pttempo", "dynamics", "correlations", "gradient", "tebd", "bathcorr-early", "bathcorr-late", "bathocc"}'
     ru = ctx.tlc("ObjectGraph", CFG_USE, label="sequences of computations re-using shared objects", workers=2,
                  constants=dict(consts, Devs="{}", MaxOps="2" if quick else "3", UseKinds=kinds))
     for c, mm in zip(ru.cases, core.pmap(reuse_job, ru.cases)):
